@@ -108,7 +108,44 @@ func mutate(r *rand.Rand, s string, alphabet string) string {
 
 var globWords = []string{"a", "ab", "aba", "abab", "b", "ba", "aab", "x", "irc", ".", "!", "@", "é", "日本", "\xff", "ü*"}
 
+// manyStars builds patterns with a large number of '*' (any fixed cap on the number of pieces
+// a pattern is cut into would show here): k stars around/between one-byte literals, against
+// inputs that do and do not contain the literals in order.
+func manyStars(r *rand.Rand) Case {
+	k := []int{8, 16, 30, 31, 32, 33, 40, 64, 65, 100, 129, 300}[r.Intn(12)]
+	var pat, in strings.Builder
+	for i := 0; i < k; i++ {
+		lit := string("ab"[r.Intn(2)])
+		if r.Intn(3) > 0 {
+			pat.WriteString(lit)
+			in.WriteString(lit)
+			if r.Intn(4) == 0 {
+				in.WriteByte("ba"[r.Intn(2)])
+			}
+		}
+		pat.WriteString("*")
+	}
+	p, s := pat.String(), in.String()
+	switch r.Intn(5) {
+	case 0:
+		p += "z" // last literal missing from the input: must not match
+	case 1:
+		p += "z"
+		s += "z"
+	case 2:
+		p = "x" + p
+	case 3:
+		if len(s) > 0 {
+			s = s[:len(s)-1] // one literal short
+		}
+	}
+	return Case{s, p}
+}
+
 func genGlob(r *rand.Rand) Case {
+	if r.Intn(12) == 0 {
+		return manyStars(r)
+	}
 	switch r.Intn(9) {
 	case 0: // random over the small alphabet, longer than the exhaustive part
 		return Case{RandBytes(r, r.Intn(13), "ab*"), RandBytes(r, r.Intn(13), "ab*")}
